@@ -282,6 +282,43 @@ struct Run : ContBase {
         if (has_empty && !encode) loads_plain_empty++;
     }
 
+    // save/load of a table whose file is far longer than any I/O block (4, 8, 64 KiB): N entries whose lines all have the same
+    // power-of-two length L (so that line ends fall on every block boundary) or lengths 6..40; every entry must come back, in order
+    void do_bulk_saveload(int N, int L, bool encode) {
+        qlisttbl_t *tb = qlisttbl(0);
+        if (!tb) c.fail(FUNC, "listtbl:ctor", "qlisttbl() returned NULL");
+        struct G { qlisttbl_t *x; ~G() { if (x) qlisttbl_free(x); } } g1{tb};
+        std::vector<std::pair<std::string, std::string>> want;
+        uint32_t h = 2166136261u ^ (uint32_t)N;
+        for (int i = 0; i < N; i++) {
+            char name[16]; snprintf(name, sizeof name, "k%04d", i);                  // 5 characters
+            h = (h ^ (uint32_t)i) * 16777619u;
+            size_t vlen = L ? (size_t)L - 7 : 1 + (h >> 8) % 34;                       // line = name + separator + value + newline
+            std::string v; for (size_t j = 0; j < vlen; j++) v.push_back((char)('a' + (h >> (j % 24)) % 26));
+            if (!qlisttbl_putstr(tb, name, v.c_str())) c.fail(FUNC, "listtbl:put-result", "putstr returned false while building a %d-entry table", N);
+            want.push_back({name, v});
+        }
+        if (tmpfile.empty()) { const char *td = getenv("TMPDIR"); tmpfile = std::string(td ? td : "/dev/shm") + "/vf-listtbl-" + std::to_string(getpid()) + ".txt"; }
+        bool ok = qlisttbl_save(tb, tmpfile.c_str(), '=', encode);
+        c.op("bulk save(encode=%d) + load: %d entries, %s", (int)encode, N, L ? strf("every line %d bytes", L).c_str() : "lines of 8..41 bytes");
+        if (!ok) c.fail(FUNC, "listtbl:save", "save() of a %d-entry table returned false (errno=%d)", N, errno);
+        qlisttbl_t *t2 = qlisttbl(QLISTTBL_LOOKUPFORWARD);        // walks follow the lookup direction: forward = insertion order
+        if (!t2) c.fail(FUNC, "listtbl:ctor", "qlisttbl() returned NULL");
+        struct G2 { qlisttbl_t *x; ~G2() { if (x) qlisttbl_free(x); } } g2{t2};
+        ssize_t n = qlisttbl_load(t2, tmpfile.c_str(), '=', encode);
+        if (n != (ssize_t)N) c.fail(FUNC, "listtbl:load-count", "load() returned %zd, the saved table has %d entries", n, N);
+        if (qlisttbl_size(t2) != (size_t)N) c.fail(FUNC, "listtbl:size", "the loaded table has %zu entries, %d were saved", qlisttbl_size(t2), N);
+        qlisttbl_obj_t o; memset(&o, 0, sizeof o); size_t i = 0;
+        while (qlisttbl_getnext(t2, &o, nullptr, false)) {
+            if (i >= want.size()) c.fail(FUNC, "listtbl:walk-extra", "the loaded table has more than %d entries", N);
+            if (want[i].first != o.name || o.size != want[i].second.size() + 1 || memcmp(o.data, want[i].second.c_str(), o.size) != 0)
+                c.fail(FUNC, "listtbl:load-entry", "entry %zu of the loaded table is %s=%s, saved was %s=%s", i, hexs(o.name, strlen(o.name)).c_str(), hexs(o.data, o.size, 16).c_str(), want[i].first.c_str(), hexs(want[i].second, 16).c_str());
+            i++;
+        }
+        if (i != want.size()) c.fail(FUNC, "listtbl:walk-missing", "the loaded table yields %zu of %d entries", i, N);
+        c.tag("case_with_bulk_save_load"); loads++;
+    }
+
     // load() from a file somebody wrote by hand: padding blanks, blank lines, # comments, and a last
     // line with or without its newline
     void do_load_text() {
@@ -339,6 +376,8 @@ struct Run : ContBase {
         t = qlisttbl(optbits(m.o) | lopt);
         if (!t) c.fail(FUNC, "listtbl:ctor", "qlisttbl() returned NULL");
         int maxops = c.tier ? 1500 : 300, ops = 0;
+        // one case in twelve ends with a bulk save/load whose file is several I/O blocks long (drawn here, before the history uses up the bytes)
+        bool bulk = s.chance(1, 12); int bulkN = (int)s.range(300, 1500); int bulkL = (int)s.pick({3, 1}) == 0 ? 8 << s.range(0, 3) : 0; bool bulkEnc = s.boolean();
         while (!s.exhausted() && ops++ < maxops) {
             int o = (int)s.pick({30, 10, 8, 8, 10, 2, 5, 1, 1, loadable_case ? 6 : 0, 2, 2, 3, loadable_case ? 0 : 2, 2});
             const char *what = "op";
@@ -367,6 +406,7 @@ struct Run : ContBase {
             full_compare(t, m, what);
             c.check_san(what);
         }
+        if (bulk) do_bulk_saveload(bulkN, bulkL, bulkEnc);
         note_outlived(); verify_kept(false);
         bool nonempty = !m.v.empty();
         qlisttbl_free(t); t = nullptr;
